@@ -427,7 +427,7 @@ pub fn profile_digest_line(ctx: &crate::props::Ctx, i: u64) -> String {
     let base = if family == 2 || family == 3 {
         // every producer-bug / scale family, at moderate sizes: arithmetic that only a long or
         // unusual but well-formed sequence reaches must not depend on the build profile either
-        let slow = ["tilemap-huge-extent", "deflate-bomb", "bomb-with-links", "tilemap-bomb-with-links", "tileset-bomb"];
+        let slow = ["tilemap-huge-extent", "deflate-bomb", "bomb-with-links", "tilemap-bomb-with-links", "tileset-bomb", "indexed-bomb-missing-index"];
         let bugs: Vec<&&str> = crate::spec::BUGS.iter().filter(|b| !slow.contains(*b)).collect();
         let bug = **r.pick(&bugs);
         let scale = match bug {
